@@ -410,6 +410,89 @@ func (f *fsEnv) cacheCase(store []string, verbose bool) (res fsResult) {
 	return
 }
 
+// twinStores: stores that already hold two manifests whose names differ only by letter case (a models
+// directory copied from elsewhere or written by an older version; Link itself never creates such a pair).
+func twinStores() [][]string {
+	return [][]string{
+		{"h/n/m:t", "H/N/M:T"}, {"H/N/M:T", "h/n/m:t"}, {"h/n/m:t", "h/N/m:t"}, {"h/n/m:t", "h/n/M:t"}, {"h/n/m:t", "h/n/m:T"}, {"h/n/m:t", "H/n/m:t"},
+		{"registry.ollama.ai/library/a:latest", "registry.ollama.ai/Library/a:latest"}, {"registry.ollama.ai/library/a:latest", "registry.ollama.ai/library/A:latest"},
+	}
+}
+
+// cacheTwinCase: both spellings of a twin pair - and every other case variant - differ only by letter
+// case, so they must all address one and the same of the two manifests (the property does not say which).
+func (f *fsEnv) cacheTwinCase(store []string) (res fsResult) {
+	defer func() {
+		if p := recover(); p != nil {
+			res.failf("C13/panic/cache-store-flow", "DiskCache twin store flow panicked for store %q: %v", store, p)
+		}
+	}()
+	mdir := filepath.Join(f.cdir, "manifests")
+	os.RemoveAll(mdir)
+	os.MkdirAll(mdir, 0o777)
+	var paths []string
+	for i, s := range store {
+		_, xn, _, err := f.reg.ZZC13ParseNameExtended(s)
+		if err != nil || !xn.IsFullyQualified() {
+			res.skipped = "store name rejected by parseNameExtended: " + q(s)
+			return
+		}
+		want := filepath.Join(mdir, xn.Host(), xn.Namespace(), xn.Model(), xn.Tag())
+		if i == 0 {
+			if err := f.cache.Link(xn.String(), f.dig); err != nil {
+				res.skipped = "Link failed (" + err.Error() + ")"
+				return
+			}
+		} else {
+			// the twin is put there by hand, byte for byte the first manifest
+			b, err := os.ReadFile(paths[0])
+			if err != nil {
+				res.skipped = "first manifest unreadable: " + err.Error()
+				return
+			}
+			os.MkdirAll(filepath.Dir(want), 0o777)
+			if err := os.WriteFile(want, b, 0o666); err != nil {
+				res.skipped = "twin not writable (case-insensitive file system?): " + err.Error()
+				return
+			}
+		}
+		paths = append(paths, want)
+	}
+	if len(regularFiles(mdir)) != 2 {
+		res.skipped = "the file system folded the twins into one file"
+		return
+	}
+	first, firstFrom := "", ""
+	seen := map[string]bool{}
+	for _, s := range store {
+		for _, v := range append(caseVariants(s), s) {
+			if seen[v] {
+				continue
+			}
+			seen[v] = true
+			_, xv, _, err := f.reg.ZZC13ParseNameExtended(v)
+			if err != nil || !xv.IsFullyQualified() {
+				continue
+			}
+			res.queries++
+			p, err := f.cache.ZZC13ManifestPath(xv.String())
+			if err != nil {
+				res.failf("C13/case/DiskCache.manifestPath/twins-variant-misses-manifest", "cache holds the twin manifests %q; the name %s resolves to nothing (%s)", store, q(v), errText(err))
+				continue
+			}
+			if first == "" {
+				first, firstFrom = p, v
+			} else if p != first {
+				res.failf("C13/case/DiskCache.manifestPath/twins-addressed-by-spelling", "cache holds the twin manifests %q; %s resolves to %q but %s, which differs from it only by letter case, resolves to %q", store, q(firstFrom), relTo(f.cdir, first), q(v), relTo(f.cdir, p))
+			}
+			if d, err := f.cache.Resolve(xv.String()); err != nil || d != f.dig {
+				res.failf("C13/case/DiskCache.Resolve/twins", "cache holds the twin manifests %q; Resolve(%q) = %v err=%v; expected the linked digest %v", store, xv.String(), d, err, f.dig)
+			}
+		}
+	}
+	return
+}
+
 // ---- the stores that are enumerated --------------------------------------------
 
 // fsSingleNames: every sigma string of <= n symbols (the harness does not
